@@ -436,11 +436,16 @@ fn parse_alt(sc: &mut Sc, terminators: &[u8], index: usize) -> R<Alt> {
 
 pub fn parse_action_code(code: &str) -> Option<syn::Expr> {
     let replaced = code.replace("<>", "__placeholder");
-    if let Ok(e) = syn::parse_str::<syn::Expr>(&replaced) {
-        return Some(e);
+    let mut e = match syn::parse_str::<syn::Expr>(&replaced) {
+        Ok(e) => e,
+        // `=> { stmts }` forms parse as block expressions already; try wrapping
+        Err(_) => syn::parse_str::<syn::Expr>(&format!("{{ {} }}", replaced)).ok()?,
+    };
+    // action code is read in the same normal form as the rest of the source
+    if std::env::var("VERIF_NO_NORMALIZE").is_err() {
+        crate::normalize::normalize_expr(&mut e);
     }
-    // `=> { stmts }` forms parse as block expressions already; try wrapping
-    syn::parse_str::<syn::Expr>(&format!("{{ {} }}", replaced)).ok()
+    Some(e)
 }
 
 pub fn parse_grammar(text: &str) -> R<Grammar> {
